@@ -152,7 +152,7 @@ def c07_sessions(V, tier):
         if case["kind"] != "query":
             continue
         hist = case["hist"]
-        if any(e["t"] in ("evict", "imported") for e in hist) or not any(e["t"] in ("close", "avail", "goto") for e in hist[:-1]):
+        if any(e["t"] not in ("edit", "avail", "goto", "close") for e in hist) or not any(e["t"] in ("close", "avail", "goto") for e in hist[:-1]):
             continue
         if any(e["t"] == "avail" and e["f"] != "t" for e in hist):
             continue
